@@ -87,10 +87,11 @@ type qmodel struct {
 	seq  []int        // outstanding nodes in order (requested ++ to-request)
 	body map[int]*fakeBlock
 	last int // node whose hash is the last processed/saved one
+	proc int // node popped and still being processed (-1 none); counts as requested until finished
 }
 
 func (m *qmodel) clone() *qmodel {
-	c := &qmodel{seq: append([]int(nil), m.seq...), body: map[int]*fakeBlock{}, last: m.last}
+	c := &qmodel{seq: append([]int(nil), m.seq...), body: map[int]*fakeBlock{}, last: m.last, proc: m.proc}
 	for k, v := range m.body {
 		c.body[k] = v
 	}
@@ -196,8 +197,16 @@ func c13Apply(t *htree, st *State, m *qmodel, op qop, blockID *int) *qviol {
 			}
 			delete(m.body, m.seq[0])
 			m.last = m.seq[0]
+			if _, ok := interface{}(st).(interface{ FinishedBlock() }); ok {
+				m.proc = m.seq[0]
+			}
 			m.seq = m.seq[1:]
 		}
+	case "finish":
+		if f, ok := interface{}(st).(interface{ FinishedBlock() }); ok {
+			f.FinishedBlock()
+		}
+		m.proc = -1
 	case "next":
 		h, _ := st.GetNextBlockToRequest()
 		nreq := len(before.Requested)
@@ -285,7 +294,7 @@ func c13Probe(t *htree, st *State, m *qmodel, op qop) *qviol {
 	}
 	for i := range t.hash {
 		h := t.hash[i]
-		if st.BlockIsRequested(&h) != inR[h] {
+		if st.BlockIsRequested(&h) != (inR[h] || (m.proc >= 0 && t.hash[m.proc] == h)) {
 			return &qviol{"is-requested-wrong", fmt.Sprintf("after %v BlockIsRequested(%d)=%v but requested set membership is %v", op, i, !inR[h], inR[h])}
 		}
 		if st.BlockIsToBeRequested(&h) != inT[h] {
@@ -301,7 +310,7 @@ func c13Probe(t *htree, st *State, m *qmodel, op qop) *qviol {
 func c13Fresh(t *htree) (*State, *qmodel) {
 	st := NewState()
 	st.SetLastHash(t.hash[0])
-	return st, &qmodel{body: map[int]*fakeBlock{}, last: 0}
+	return st, &qmodel{body: map[int]*fakeBlock{}, last: 0, proc: -1}
 }
 
 func opsString(ops []qop) string {
@@ -314,7 +323,7 @@ func opsString(ops []qop) string {
 
 func TestVerif_C13(t *testing.T) {
 	rep := verifkit.NewReport("C13")
-	rep.Rule = "bounded-exhaustive: every sequence of length<=D over a 24-operation alphabet on a 2-branch tree of 6 hashes (every prefix probed); random: length-80 sequences on a 40-block chain with forks and block sizes up to 60 MB; concurrent: 4 goroutines on one State, history checked by porcupine. Non-trivial = the sequence contains a clear, a fork announcement, an unrequested/duplicate delivery or reaches the window/byte limit; distinct by the multiset-free sequence of (op kind, accepted?) pairs"
+	rep.Rule = "bounded-exhaustive: every sequence of length<=D over a 25-operation alphabet on a 2-branch tree of 6 hashes (every prefix probed); random: length-80 sequences on a 40-block chain with forks and block sizes up to 60 MB; concurrent: 4 goroutines on one State, history checked by porcupine. Non-trivial = the sequence contains a clear, a fork announcement, an unrequested/duplicate delivery or reaches the window/byte limit; distinct by the multiset-free sequence of (op kind, accepted?) pairs"
 	rep.Assumptions = []string{"fake wire.Block objects report the size the scenario claims", "overlay accessor VerifQueue reads unexported fields under State.lock", "byte limit only probed clearly below (<90MB) and clearly above (>110MB)"}
 	defer rep.Write()
 
@@ -349,7 +358,7 @@ func c13SmallTree() (*htree, []qop) {
 		ops = append(ops, qop{Op: "deliver", A: n, Size: 1000})
 	}
 	ops = append(ops, qop{Op: "deliver", A: a1, Size: 60000000})
-	ops = append(ops, qop{Op: "pop"}, qop{Op: "next"}, qop{Op: "clearall"})
+	ops = append(ops, qop{Op: "pop"}, qop{Op: "finish"}, qop{Op: "next"}, qop{Op: "clearall"})
 	for _, n := range []int{a1, a2, b2, x} {
 		ops = append(ops, qop{Op: "clearafter", A: n})
 	}
@@ -476,8 +485,10 @@ func c13Random(rep *verifkit.Report) {
 				} else {
 					op = qop{Op: "deliver", A: r.Intn(len(t.hash)), Size: sizes[r.Intn(len(sizes))]}
 				}
-			case k < 72:
+			case k < 68:
 				op = qop{Op: "pop"}
+			case k < 72:
+				op = qop{Op: "finish"}
 			case k < 88:
 				op = qop{Op: "next"}
 			case k < 90:
